@@ -11,9 +11,11 @@ def xhex(b): return "x" + bytes(b).hex()
 def f2h(f): return struct.pack(">f", f).hex()
 
 class G:
-    def __init__(self, seed):
+    def __init__(self, seed, within_capacity=False, rep=False):
         self.r = random.Random(seed)
         self.stats = {}
+        self.within_capacity = within_capacity   # names <= 127, no beyond-limit content
+        self.rep = rep                           # string values the space-padded cell format can hold
     def count(self, k, n=1): self.stats[k] = self.stats.get(k, 0) + n
     def byte(self, special=0.15, nul=True):
         if self.r.random() < special:
@@ -22,7 +24,7 @@ class G:
             return b
         return self.r.choice(ORD)
     def name(self, minlen=1, special=0.15, long_=0.02, nul=False):
-        if self.r.random() < long_: n = self.r.choice(LONGLENS)
+        if self.r.random() < long_: n = self.r.choice([127] if self.within_capacity else LONGLENS)
         else: n = self.r.choice([l for l in LENS if l >= minlen])
         return bytes(self.byte(special, nul) for _ in range(n))
     def simple_name(self, prefix=b"p"):
@@ -71,8 +73,8 @@ def param_line(g, group, name, ptype=None, valid=True, dims_n=None, desc=None, l
     n = min(n, 400)
     if ptype == "I": vals = ",".join(str(g.int16() if vals16 else g.int32()) for _ in range(n)) or "-"
     elif ptype == "F": vals = ",".join(g.fbits() for _ in range(n)) or "-"
-    else: vals = ",".join(xhex(g.name(0, nul=False)) for _ in range(n)) or "-"
-    if desc is None: desc = g.name(0, special=0.1, long_=0.05, nul=False) if r.random() < 0.5 else b""
+    else: vals = ",".join(xhex(g.name(0, nul=False).rstrip(b" ") if g.rep else g.name(0, nul=False)) for _ in range(n)) or "-"
+    if desc is None: desc = (g.name(0, special=0.1, long_=0.0, nul=False) + (bytes(g.byte(0.1, False) for _ in range(r.choice([0, 100, 111, 128, 238]))) if r.random() < 0.1 else b"")) if r.random() < 0.5 else b""
     if locked is None: locked = r.random() < 0.3
     g.count("param_%s_%dd" % (ptype, nd))
     return "param %s %s %s %d %s %s %s" % (xhex(group), xhex(name), xhex(desc), int(locked), ptype, dimstr, vals)
@@ -110,10 +112,10 @@ class Shadow:
             if ns and len(cn) != len(self.chs): self.chs = [n.rstrip(b" ") for n in cn]
             if not ns and self.chs: self.chs = []
 
-def gen_api_history(seed, nops=30, malformed=0.25, with_io=None, caller_mut=0.0, big=False):
+def gen_api_history(seed, nops=30, malformed=0.25, with_io=None, caller_mut=0.0, big=False, within_capacity=False, rep=False):
     """state-aware history over the full op alphabet; returns (lines, stats).
     with_io: None, or a path prefix for save/reload ops."""
-    g = G(seed); r = g.r
+    g = G(seed, within_capacity, rep); r = g.r
     L = ["new"]
     S = Shadow()
     nsub = 1
@@ -147,7 +149,7 @@ def gen_api_history(seed, nops=30, malformed=0.25, with_io=None, caller_mut=0.0,
             v = newvar()
             pn = list(S.pts); cn = list(S.chs)
             ns = (S.nabf() if S.arate else 0) if S.chs else r.choice([0, 0, S.nabf() if S.arate else 0])
-            if not S.chs and ns and r.random() < 0.7: ns = 0
+            if not S.chs and ns and (r.random() < 0.7 or malformed == 0.0): ns = 0
             if bad:
                 dev = r.choice(["fewpt", "morept", "rename", "dup", "empty", "fewch", "morech", "nsub", "swap"])
                 g.count("dev_" + dev)
@@ -168,7 +170,8 @@ def gen_api_history(seed, nops=30, malformed=0.25, with_io=None, caller_mut=0.0,
             k = r.random()
             if k < 0.6 or nframes == 0: L.append("frame %s" % v); idx = None
             else:
-                idx = r.choice([0, max(nframes - 1, 0), nframes, nframes + 1, nframes + r.randint(2, 4), r.randrange(nframes)])
+                idx = r.choice([0, max(nframes - 1, 0), nframes, nframes + 1, nframes + r.randint(2, 4), r.randrange(nframes)] if malformed > 0
+                               else [0, nframes - 1, nframes, r.randrange(nframes)])
                 L.append("frame %s %d" % (v, idx))
             g.count("op_frame")
             ok = S.frame_ok(pn, cn_eff, ns)
@@ -244,7 +247,7 @@ def gen_api_history(seed, nops=30, malformed=0.25, with_io=None, caller_mut=0.0,
             elif k < 0.8:
                 grp = g.name(1, special=0.1); groups.append(grp)
             else:
-                grp = r.choice([b"point", b"POINT ", b"Point", b""])
+                grp = r.choice([b"point", b"POINT ", b"Point", b""] if not g.within_capacity else [b"point", b"POINT ", b"Point"])
             if bad and r.random() < 0.3:
                 nm = b"" if r.random() < 0.5 else g.name(1)
                 ty = "N" if nm else r.choice("IFC")
